@@ -8,12 +8,13 @@ polynomial normal forms, with the defining lambda-sum
   delta_t = (r_t + gamma (1-term_t) V_{t+1} - V_t) m_t,  m = 1 - trunc,  V_T = bootstrap
   vs_t = A_t + V_t ;  adv_t = (r_t + gamma (1-term_t) vs_{t+1} - V_t) m_t,  vs_T = bootstrap
 
-with stop_gradient on both outputs.
+with no gradient flowing to rewards, values or the bootstrap value (R19.2: every occurrence of a
+differentiable input lies under stop_gradient -- on the outputs or on all inputs, either placement).
 """
 import numpy as np
 
 from braxlint import avn
-from braxlint.avn import P_zeros, Poly, Rat, elemwise, fn, same, symarr, uf
+from braxlint.avn import P_zeros, Poly, Rat, elemwise, fn, same, symarr, uf, asarr
 from braxlint.avnlib import diff_report, new_interp, sym
 
 LEVEL = 'other'
@@ -87,10 +88,21 @@ def run(U, rep, tier):
       continue
     for name, o, r_ in (('vs', out[0], ref[0]), ('advantages', out[1], ref[1])):
       key = '%s T=%d,B=%d' % (name, Tn, Bn)
-      if same(o, r_):
+      # value: equal to the definition wherever the stop_gradient markers are placed (stop_gradient is the
+      # identity on values) ...
+      strip = lambda a: Rat.lift(avn.ATOM_ARGS[a][1][0]) if isinstance(a, avn.Atom) and a.kind == 'stop_gradient' else None
+      ov, rv = avn.subst_atoms(asarr(o), strip), avn.subst_atoms(asarr(r_), strip)
+      if same(ov, rv):
         rep.ok('R19.1', key, construct='compute_gae.%s == lambda-sum definition' % name, where=f.where())
       else:
-        rep.fail('R19.1', key, '%s differs from the GAE definition: %s' % (name, diff_report(o, r_)),
+        rep.fail('R19.1', key, '%s differs from the GAE definition: %s' % (name, diff_report(ov, rv)),
                  where=f.where(), construct='compute_gae')
+      # ... gradient: no differentiable input (rewards, values, bootstrap value) reaches the output outside a
+      # stop_gradient, whether the cut is made on the outputs or on every input
+      leak = sorted(str(x) for x in avn.free_symbols(asarr(o), opaque_kinds=('stop_gradient',))
+                    if str(x).split('_')[0] in ('r', 'V', 'b'))
+      rep.check(not leak, 'R19.2', '%s T=%d,B=%d carries no gradient' % (name, Tn, Bn),
+                '%s depends differentiably on %s (not under stop_gradient)' % (name, ', '.join(leak[:4])), where=f.where(),
+                construct='every occurrence of rewards / values / bootstrap_value lies under jax.lax.stop_gradient')
   rep.stat('grid', ['T=%d,B=%d' % g for g in grid])
   rep.stat('interpreter_calls', I.calls)
